@@ -48,6 +48,17 @@ def case(d):
         q = Q()
         q.name, q.text, q.variant, q.lines = p.name, text, ("exotic", repr(ch), where), []
         p = q
+    if p.lines and d.bool(0.12):
+        # a lexical diagnostic with several highlights (the position shown is the first one in every format)
+        from .c08 import LEXICAL
+        lines = p.text.split("\n")
+        lines.insert(d.int(12, max(12, len(lines) - 2)), "\t" + d.choice(LEXICAL).rstrip("\n"))
+
+        class Q2:
+            pass
+        q = Q2()
+        q.name, q.text, q.variant, q.lines = p.name, "\n".join(lines), ("lexical-fragment",), []
+        p = q
     sets = []
     for _ in range(d.int(3, 6)):
         o = {"colors": d.bool(0.5), "fmt": d.choice([None, "humanized", "json"]), "o": d.bool(0.3), "debug": d.weighted([(4, 0), (2, 1), (1, 2)]),
